@@ -217,6 +217,22 @@ func TestC15(t *testing.T) {
 			}
 		}
 		ev.Class("crops-of-large-parents", int64(nc))
+		// wide pictures whose rows come in equal pairs (pixel-doubled art, bands), at several parallelisms
+		np := 0
+		for ti, typ := range []string{"NRGBA", "RGBA", "RGBA64", "NRGBA64", "YCbCr", "Gray", "Paletted", "CMYK"} {
+			for hi, helper := range []string{"NRGBA", "RGBA", "RGBA64"} {
+				for _, par := range []int{2, 3, 4} {
+					c := Case{Src: img.Spec{Type: typ, Ratio: ti % 6, Rect: [4]int{0, 0, 160, 14}, Parent: [4]int{0, 0, 160, 14}, Fill: "rowpairs", Seed: uint64(ti*9+hi*3+par) + ev.Seed(), PalN: 256}, Helper: helper, Par: par}
+					ev.Eval(1)
+					np++
+					ev.NT(ev.Hash("rowpairs", c))
+					if k, w, _ := check(c); k != "" {
+						ev.Violation("convert", c.Helper+"/"+k, w, c)
+					}
+				}
+			}
+		}
+		ev.Class("row-pairs", int64(np))
 	}
 	// fixed cross product on awkward geometry
 	for _, typ := range img.Types {
